@@ -1,4 +1,5 @@
 import GoframeModel.Ops.SqlWrite
+import GoframeModel.Lemmas.SqlWrite
 /-
   C11 — SQL export writes every cell exactly once, for any dialect and batch size.
 -/
@@ -8,22 +9,22 @@ open Goframe Sql
 /-- the batches tile `0 … n-1` exactly: consecutive, non-empty, at most `b` rows each -/
 theorem batches_cover (b n : Nat) (hb : 0 < b) :
     (batches b n).flatMap (fun lh => List.range' lh.1 (lh.2 - lh.1)) = List.range n ∧
-    ∀ lh ∈ batches b n, lh.1 < lh.2 ∧ lh.2 - lh.1 ≤ b ∧ lh.2 ≤ n := by
-  sorry
+    ∀ lh ∈ batches b n, lh.1 < lh.2 ∧ lh.2 - lh.1 ≤ b ∧ lh.2 ≤ n :=
+  SqlLemmas.batches_cover b n hb
 
 /-- Go's loop `for start := 0; start < n; start += b` with `end := start + b` never overflows 64 bits
 for frames below 2^62 rows, whatever positive batch size is given -/
 theorem batch_no_overflow (b n start : Int) (hb : 0 < b) (hbi : b < 2 ^ 63) (hn : n < 2 ^ 62)
     (hs : 0 ≤ start) (hsn : start < n) (hmul : ∃ k : Int, start = k * b) :
     (if start + b > n then n else start + b) = min (start + b) n ∧
-    ((start + b < 2 ^ 63) ∨ (start = 0)) := by
-  sorry
+    ((start + b < 2 ^ 63) ∨ (start = 0)) :=
+  SqlLemmas.batch_no_overflow b n start hb hbi hn hs hsn hmul
 
 /-- every INSERT carries exactly rows × columns bound values, row-major -/
 theorem insert_args (f : Frame) (table : Str) (lo hi : Nat) :
     ∃ args, insertCall f table lo hi = .exec (.insert table f.keys (hi - lo)) args ∧
-      args.length = (hi - lo) * f.ncols := by
-  sorry
+      args.length = (hi - lo) * f.ncols :=
+  SqlLemmas.insert_args f table lo hi
 
 /-- placeholders of a rendered INSERT: `nrows` groups of `ncols`, numbered 1..k for PostgreSQL, `?` otherwise -/
 def phNumbers (d : Dialect) (ncols nrows : Nat) : List (List Nat) :=
@@ -43,8 +44,8 @@ def execCalls (d : Dialect) : DB → List Call → Option DB
 
 /-- nil is stored as NULL, every numeric width as int64 / float64 -/
 theorem bound_spec : bound .nil = .nil ∧ (∀ t v, bound (.int t v) = .int .int64 v) ∧
-    (∀ s v, bound (.flt s v) = .flt false v) ∧ (∀ s, bound (.str s) = .str s) ∧ (∀ b, bound (.bool b) = .bool b) := by
-  sorry
+    (∀ s v, bound (.flt s v) = .flt false v) ∧ (∀ s, bound (.str s) = .str s) ∧ (∀ b, bound (.bool b) = .bool b) :=
+  ⟨rfl, fun _ _ => rfl, fun _ _ => rfl, fun _ => rfl, fun _ => rfl⟩
 
 /-- new table (or replace): executing the planned statements in order leaves the table holding exactly the
 frame's rows in frame order, each cell under its own column -/
@@ -55,7 +56,13 @@ theorem plan_final_table_new (f : Frame) {n : Nat} (hs : f.Sorted) (hr : f.RectN
     ∃ db', execCalls r.dialect init (bodyAfterQuery f table r ex).1 = some db' ∧
       (db'.get? table).map (·.rows) =
         some ((List.range n).map (fun i => f.map (fun kc => (kc.1, bound (kc.2.data.getD i .nil))))) := by
-  sorry
+  intro old init
+  have sem : SqlLemmas.ExecSem (execCalls r.dialect) (toP r.dialect) :=
+    ⟨fun _ => rfl, fun _ _ _ _ => rfl, fun _ => rfl,
+      fun t cols => ⟨_, rfl, by simp [List.map_map, Function.comp_def]⟩,
+      fun t cols n => ⟨_, rfl, by simp [phNumbers], by
+        intro r hr; obtain ⟨i, _, rfl⟩ := List.mem_map.1 hr; simp⟩⟩
+  exact SqlLemmas.plan_final_table_new sem f hr hne table r hb ex hmode old
 
 /-- append: the existing rows stay, the frame's rows follow -/
 theorem plan_final_table_append (f : Frame) {n : Nat} (hs : f.Sorted) (hr : f.RectN n) (hne : f ≠ []) (table : Str)
@@ -64,18 +71,23 @@ theorem plan_final_table_append (f : Frame) {n : Nat} (hs : f.Sorted) (hr : f.Re
     ∃ db', execCalls r.dialect [(table, old)] (bodyAfterQuery f table r true).1 = some db' ∧
       (db'.get? table).map (·.rows) =
         some (old.rows ++ (List.range n).map (fun i => f.map (fun kc => (kc.1, bound (kc.2.data.getD i .nil))))) := by
-  sorry
+  have sem : SqlLemmas.ExecSem (execCalls r.dialect) (toP r.dialect) :=
+    ⟨fun _ => rfl, fun _ _ _ _ => rfl, fun _ => rfl,
+      fun t cols => ⟨_, rfl, by simp [List.map_map, Function.comp_def]⟩,
+      fun t cols n => ⟨_, rfl, by simp [phNumbers], by
+        intro r hr; obtain ⟨i, _, rfl⟩ := List.mem_map.1 hr; simp⟩⟩
+  exact SqlLemmas.plan_final_table_append sem f hr hne table r hb hmode old hold
 
 /-- IfExists "fail" (the default) on an existing table: an error, and no statement is issued -/
 theorem fail_mode_writes_nothing (f : Frame) (table : Str) (r : Resolved) (h : r.mode = .fail) :
-    bodyAfterQuery f table r true = ([], false) := by
-  sorry
+    bodyAfterQuery f table r true = ([], false) :=
+  SqlLemmas.fail_mode_writes_nothing f table r h
 
 /-- option validation: unknown IfExists / negative BatchSize / unknown or missing dialect are errors
 before any call is made -/
 theorem invalid_options_no_calls (f : Frame) (table : Str) (o : WriteOpts) (ex : Bool) (fa : Option Nat)
-    (h : (resolve o).isErr = true) : runBody f table o ex fa 0 = ([], false) := by
-  sorry
+    (h : (resolve o).isErr = true) : runBody f table o ex fa 0 = ([], false) :=
+  SqlLemmas.invalid_options_no_calls f table o ex fa h
 
 example : batches 2 5 = [(0, 2), (2, 4), (4, 5)] ∧ batches 1000 0 = [] ∧ batches 5 5 = [(0, 5)] := by decide
 
